@@ -709,6 +709,77 @@ func (p *c12) expectedNotations(x *res, adapter string) {
 	}
 }
 
+// duplicateSetMembers: a set holds each member once. For numbers "once" is by VALUE: a number set given with two
+// numerals of one value ("1" and "1.0", "10" and "1e1") is no set - DynamoDB refuses it ("Input collection contains
+// duplicates") - and stored as given it reads back with two members while conditions see one.
+func (p *c12) duplicateSetMembers(x *res, adapter string) {
+	spec := mon.SpecHashOnly("tbl12d")
+	// the counterpart: SEVERAL number sets inside one list or map that share numbers (in the same or in another
+	// notation) are each a set of their own - every one keeps all its members, through PutItem and through SET
+	shared := [][2]val.V{{val.NS("1", "2"), val.NS("2.0", "3")}, {val.NS("10", "7"), val.NS("1e1", "7", "8")}, {val.NS("0.5"), val.NS(".5")}, {val.NS("1", "2", "3"), val.NS("3", "2", "1")}}
+	for si, sh := range shared {
+		for fi, doc := range []val.V{val.List(sh[0], sh[1]), val.Map(map[string]val.V{"first": sh[0], "second": sh[1]}), val.List(val.Map(map[string]val.V{"s": sh[0]}), val.List(sh[1]))} {
+			for _, via := range []string{"put", "update-value"} {
+				cl, _, ds := freshClient(adapter, spec)
+				if ds != nil {
+					return
+				}
+				key := val.Item{"h": val.Str("k")}
+				var o adapt.Outcome
+				if via == "put" {
+					o = cl.Do(adapt.Op{Kind: adapt.OpPut, Table: spec.Name, Item: val.Item{"h": val.Str("k"), "rounds": doc}})
+				} else {
+					o = cl.Do(adapt.Op{Kind: adapt.OpUpdate, Table: spec.Name, Key: key, Update: "SET rounds = :r", Values: val.Item{":r": doc}})
+				}
+				g := cl.Do(adapt.Op{Kind: adapt.OpGet, Table: spec.Name, Key: key})
+				x.r.Evals += 2
+				x.fp(true, "%s|sharedsets|%d|%d|%s", adapter, si, fi, via)
+				x.r.Counters["number_sets_sharing_numbers"]++
+				if o.Class != adapt.ClsOK || !val.Equal(g.Item["rounds"], doc) {
+					x.viol("number-set-lost-a-member", via, fmt.Sprintf("[%s] %s of %s (number sets that share numbers, each complete): class %s %s; read back %s", adapter, via, doc.Canon(), o.Class, o.Msg, g.Item["rounds"].Canon()), map[string]interface{}{"adapter": adapter, "doc": doc, "outcome": o, "read": g})
+				}
+			}
+		}
+	}
+	pairs := [][2]string{{"1", "1.0"}, {"10", "1e1"}, {"0", "-0"}, {"0.5", ".5"}, {"100", "1E2"}, {"9007199254740993", "9007199254740993.0"}, {"7", "7"}}
+	for _, pr := range pairs {
+		for fi, mk := range []func(v val.V) val.Item{
+			func(v val.V) val.Item { return val.Item{"ns": v} },
+			func(v val.V) val.Item { return val.Item{"doc": val.Map(map[string]val.V{"l": val.List(val.Str("x"), v)})} },
+		} {
+			for _, via := range []string{"put", "update-value", "condition-value"} {
+				cl, _, ds := freshClient(adapter, spec)
+				if ds != nil {
+					return
+				}
+				dup := val.V{K: val.KNS, Set: []string{pr[0], "3", pr[1]}}
+				it := mk(dup)
+				it["h"] = val.Str("k")
+				var op adapt.Op
+				switch via {
+				case "put":
+					op = adapt.Op{Kind: adapt.OpPut, Table: spec.Name, Item: it}
+				case "update-value":
+					op = adapt.Op{Kind: adapt.OpUpdate, Table: spec.Name, Key: val.Item{"h": val.Str("k")}, Update: "SET stored = :s", Values: val.Item{":s": dup}}
+				default:
+					op = adapt.Op{Kind: adapt.OpPut, Table: spec.Name, Item: val.Item{"h": val.Str("k")}, Cond: "attribute_not_exists(h) OR ns = :s", Values: val.Item{":s": dup}}
+				}
+				o := cl.Do(op)
+				x.r.Evals++
+				x.fp(pr[0] != pr[1], "%s|dupset|%s|%s|%d|%s", adapter, pr[0], pr[1], fi, via)
+				x.r.Counters["sets_with_a_member_twice"]++
+				wit := map[string]interface{}{"adapter": adapter, "request": op, "outcome": o}
+				if o.Class == adapt.ClsRuntime {
+					x.viol("runtime-panic", o.Site, fmt.Sprintf("[%s] %s with the number set {%s, 3, %s}: panic %s", adapter, via, pr[0], pr[1], o.Msg), wit)
+				} else if o.Class == adapt.ClsOK {
+					g := cl.Do(adapt.Op{Kind: adapt.OpGet, Table: spec.Name, Key: val.Item{"h": val.Str("k")}})
+					x.viol("number-set-holds-a-value-twice", via, fmt.Sprintf("[%s] %s with the number set {%s, 3, %s}, which holds one value twice, is accepted; the item then reads %s", adapter, via, pr[0], pr[1], g.Item.Canon()), wit)
+				}
+			}
+		}
+	}
+}
+
 func (p *c12) RunCase(ctx *runner.Ctx) runner.CaseResult {
 	x := newRes()
 	n := len(c12Pool)
@@ -728,6 +799,7 @@ func (p *c12) RunCase(ctx *runner.Ctx) runner.CaseResult {
 	case ctx.Case < n+4:
 		p.sortOrder(x, adapt.Adapters[ctx.Case-n-2], ctx)
 		p.expectedNotations(x, adapt.Adapters[ctx.Case-n-2])
+		p.duplicateSetMembers(x, adapt.Adapters[ctx.Case-n-2])
 	case ctx.Case < n+8:
 		// same value in five notations against every pool member
 		for _, a := range []string{"1.0", "01", "1e0", "10E-1", "0.10E1"}[ctx.Case-n-4 : ctx.Case-n-3] {
